@@ -142,10 +142,12 @@ AvgOK(x, ints) == LET n == Len(ints) s == SumOf(ints) d == 2 * (x * n - s) IN
                   IF n = 0 THEN x = 0 ELSE d <= n /\ -d <= n
 
 \* the code as found keeps a mean that is re-rounded after every row (known finding avg-running-rounding):
-\* what it returns for the values in scan order (non-negative integers)
+\* what it returns for the values in scan order
 RECURSIVE RunAvgFrom(_, _, _)
+\* math.Round: to the nearest integer, halves away from zero
+RoundDiv(s, n) == IF s >= 0 THEN (2 * s + n) \div (2 * n) ELSE -((2 * (-s) + n) \div (2 * n))
 RunAvgFrom(ints, i, m) == IF i > Len(ints) THEN m
-                          ELSE RunAvgFrom(ints, i + 1, (2 * (m * (i - 1) + ints[i]) + i) \div (2 * i))
+                          ELSE RunAvgFrom(ints, i + 1, RoundDiv(m * (i - 1) + ints[i], i))
 RunAvg(ints) == RunAvgFrom(ints, 1, 0)
 
 \* is `out` (a result row) right for the group with members ms?  running = TRUE: "right" with AVG read as the
